@@ -1187,6 +1187,70 @@ class RootG13:
     hi: Annotated[int, Dependent("lo", lambda lo: IntRange(lo, lo + 2))]
 
 
+class AG16(ABC):
+    pass
+
+
+@dataclass
+class LeafG16(AG16):
+    pass
+
+
+@dataclass
+class Leaf2G16:
+    pass
+
+
+@dataclass
+class DG16(AG16):
+    x: Leaf2G16  # a NON-recursive production of minimum depth 2 next to a recursive one
+
+
+@dataclass
+class CG16(AG16):
+    l: AG16
+    r: AG16
+
+
+# a ring of productions: each can hold the next one or a leaf (a derivation cycle of length 12)
+RingLeafG17 = dataclasses.make_dataclass("RingLeafG17", [])
+RING_G17 = [dataclasses.make_dataclass(f"Ring{_i}G17", [("nxt", object)]) for _i in range(12)]
+for _i, _c in enumerate(RING_G17):
+    _t = Union[RING_G17[(_i + 1) % len(RING_G17)], RingLeafG17]
+    _c.__annotations__["nxt"] = _t
+    _c.__init__.__annotations__["nxt"] = _t
+    _c.__dataclass_fields__["nxt"].type = _t
+for _c in RING_G17 + [RingLeafG17]:
+    _c.__module__ = __name__
+
+
+class ExprG18(ABC):
+    pass
+
+
+@dataclass
+class VarG18(ExprG18):
+    pass
+
+
+@dataclass
+class NegG18(ExprG18):
+    e: ExprG18
+
+
+@dataclass
+class EmitG18:
+    value: Union[int, ExprG18]  # the ONLY road from the start symbol to Expr goes through a field that may also be a base value
+
+
+@dataclass
+class RootG15:
+    start: Annotated[int, IntRange(100, 110)]
+    width: Annotated[int, IntRange(1, 2)]
+    # the dependency names are listed in the REVERSE of the declaration order; the callable's parameters follow the listed order
+    pos: Annotated[int, Dependent("width,start", lambda width, start: IntRange(start, start + width))]
+
+
 class NumG14(ABC):
     pass
 
@@ -1264,6 +1328,10 @@ def extra_family():
         ("H3-evaluated-interval-list", [EH1, LitH1, NegH1, RootH3], RootH3, "IntervalRange tuple and sized list, annotations held as objects"),
         ("G11-float-int-bounds", [EG11, LeafG11, NegG11], EG11, "FloatRange(0, 9) with int-written bounds on a float field"),
         ("G12-tuple-rec-second", [EG12, LeafG12, PairG12], EG12, "recursion through the second component of a tuple[int, E] field"),
+        ("G16-full-nonrecursive-deep", [AG16, LeafG16, Leaf2G16, DG16, CG16], AG16, "A -> Leaf | D(x: Leaf2) | C(A, A): every abstract type recursive, a non-recursive production of minimum depth 2"),
+        ("G17-ring-of-12", RING_G17 + [RingLeafG17], RING_G17[0], "12 productions in a ring, each with a field Union[next, Leaf]: a derivation cycle of length 12"),
+        ("G18-symbol-behind-base-union", [ExprG18, VarG18, NegG18, EmitG18], EmitG18, "Emit(value: Union[int, Expr]); Expr -> Var | Neg(e: Expr): Expr is reachable only through a union with a base type"),
+        ("G15-dependent-two-siblings", [RootG15], RootG15, "Dependent('width,start', (width, start) -> IntRange(start, start+width)): names listed against the declaration order"),
         ("G14-nested-lists", [NumG14, LitG14, NegG14, RootG14], RootG14, "list[list[E]] and list[Annotated[list[E], ListSizeBetween]] fields"),
         ("G13-dependent-scope", [WindowG13, RootG13], RootG13, "Dependent('lo') with concrete children (direct and in a sized list) that have a field of the same name in between"),
         ("G9-layers-unreachable", [EG9, MidG9, LeafG9, NodeG9, IslandG9], EG9, "two abstract layers, all abstract types recursive, one unreachable class"),
